@@ -6,6 +6,7 @@ import (
 	"math/big"
 	"sort"
 	"strings"
+	"sync"
 	"time"
 
 	"github.com/github/git-sizer/counts"
@@ -232,11 +233,79 @@ func c12Worker(sh *explore.Shard) {
 			}
 		}
 	}
+	// (iv) call-order independence: a rendering must not depend on what the same
+	// formatter rendered before. Every ordered pair and every ordered triple of a
+	// boundary alphabet (0, 1, 999, each multiplier -1/+0/+1, x10, x999) on one
+	// formatter value, each result judged by the exact oracle.
+	for si := range systems {
+		ps := &systems[si]
+		alpha := []uint64{0, 1, 999, 1<<64 - 1}
+		for _, m := range ps.mults {
+			if m > 1 {
+				alpha = append(alpha, m-1, m, m+1, 10*m, 999*m)
+			}
+		}
+		for ai, a := range alpha {
+			idx++
+			if !sh.Mine(idx) || sh.Expired() {
+				continue
+			}
+			for _, b := range alpha {
+				ps.h.FormatNumber(a, "B")
+				if _, problem := c12Check(ps, b); problem != "" {
+					report(ps, b, fmt.Sprintf("%s (when rendered right after %d)", problem, a))
+				}
+				sh.C.Evals++
+				if ai%5 == 1 {
+					for _, c := range alpha {
+						ps.h.FormatNumber(a, "B")
+						ps.h.FormatNumber(b, "B")
+						if _, problem := c12Check(ps, c); problem != "" {
+							report(ps, c, fmt.Sprintf("%s (when rendered right after %d, %d)", problem, a, b))
+						}
+						sh.C.Evals++
+					}
+				}
+			}
+			sh.C.Nontrivial++
+		}
+	}
+	// (v) auxiliary, free-running (sampling; a wrong rendering is a violation,
+	// silence is not evidence): several goroutines rendering at once through the
+	// same package-level formatters
+	idx++
+	if sh.Mine(idx) && !sh.Expired() {
+		var wg sync.WaitGroup
+		var mu sync.Mutex
+		bad := ""
+		for g := 0; g < 8; g++ {
+			wg.Add(1)
+			go func(g int) {
+				defer wg.Done()
+				ps := &systems[g%len(systems)]
+				for n := uint64(900 + g); n < 900+200000; n += 7 {
+					if _, problem := c12Check(ps, n); problem != "" {
+						mu.Lock()
+						if bad == "" {
+							bad = fmt.Sprintf("%s FormatNumber(%d) with 8 goroutines rendering at once: %s", ps.name, n, problem)
+						}
+						mu.Unlock()
+						return
+					}
+				}
+			}(g)
+		}
+		wg.Wait()
+		sh.C.Add("concurrent_renderings", 8*200000/7)
+		if bad != "" {
+			sh.C.Violate(explore.Violation{Property: "C12", Class: "concurrent-callers", Msg: bad, Case: caseJSON(sh.Index(), nil)})
+		}
+	}
 	_ = json.Marshal
 }
 
 func init() {
 	Registry["C12"] = &Check{Level: "exploration", Worker: c12Worker, QuickBudget: 40 * time.Second, ThoroughBudget: 5 * time.Minute,
-		Rule:        "both prefix systems: every n in [0,2^20) (quick) / [0,2^26) (thorough); every rounding half-boundary of every prefix and precision band +-3; every prefix multiplier x {1,10,100,999.5,1000,1024} +-3; 2^k +-3 for all k; cap-3..cap. Oracle: exact big-integer arithmetic (prefix choice, half-unit error bound, exactness below the first prefix, >=3 significant digits, <=5 characters, monotone magnitude between adjacent explored values). distinct_nontrivial = values checked (all are distinct inputs)",
+		Rule:        "both prefix systems: every n in [0,2^20) (quick) / [0,2^26) (thorough); every rounding half-boundary of every prefix and precision band +-3; every prefix multiplier x {1,10,100,999.5,1000,1024} +-3; 2^k +-3 for all k; cap-3..cap. Oracle: exact big-integer arithmetic (prefix choice, half-unit error bound, exactness below the first prefix, >=3 significant digits, <=5 characters, monotone magnitude between adjacent explored values); every ordered pair and (for a fifth of the first elements) every ordered triple of a 4+5 x prefixes boundary alphabet rendered in sequence on one formatter value (call-order independence); auxiliary: 8 goroutines rendering at once (sampling). distinct_nontrivial = values checked (all are distinct inputs)",
 		Assumptions: []string{"values above the dense range that are not near an enumerated boundary are not explored; between two adjacent explored points nothing is claimed about the interior"}}
 }
